@@ -60,6 +60,9 @@ func replayName(o *Obligation) string {
 
 func writeReplay(ctx *Ctx, vc *FuncVC, o *Obligation, prop string) (string, bool) {
 	dir := filepath.Join(verifDir, "replays", prop)
+	if os.Getenv("GOVC_NOEVIDENCE") != "" {
+		dir = filepath.Join(verifDir, ".work", "selftest-replays", prop)
+	}
 	os.MkdirAll(dir, 0o755)
 	path := filepath.Join(dir, replayName(o)+".json")
 	out := o.Output
